@@ -93,6 +93,11 @@ CLAIMED = {
         text="TLC checks DoneMasks, TerminalIsReward, Bootstraps, LossDef on the tabular grid (with negative controls that must fail) and TargetTracks / BoundedLag on the protocol. 55k grid cases are replayed into the real DQN / double DQN / CQN / DDPG / TD3 learn() built on table-lookup EvolvableModules (Q(s,a), Y and loss compared exactly), MADDPG/MATD3 joint cases validated as traces, Rainbow and CQN by bit-exact / tolerance differential runs; life-cycle scripts with the real Mutations and checkpoints classify every target tensor as lerp/noop/copy and TLC demands lerp at exactly the protocol's positions.",
         note="Trusted: TLC, forward hook on the criterion to read Q and Y, tolerance 1e-5 for the lerp classification (tau in {1/2,1/4}), policy_noise=0 in tabular runs. The numeric value of CQN's logsumexp regulariser is not predicted.",
         design="4/C08, 5"),
+    "C20": dict(
+        technique="TLA+ specs TrainLoop.tla (population counters: steps = env steps along the lineage, budget rule any/sum, one fitness per generation, elite carried) and its refinement TrainLoop_Fine.tla (per-step loop with learn scheduling) model-checked by TLC incl. refinement and negative controls + TLC-enumerated configurations run through the six real train_* functions on counting probe environments, event traces validated by TLC (TrainLoop_Trace)",
+        text="TLC checks StepsAreEnvSteps, NoGenerationOnceMet / ReturnOnlyWhenMet (stops in the first generation in which the budget is met), OneFitnessPerGeneration, PopShape, EliteCarried, Inherited and that the fine-grained loop model refines the abstract one; three seeded design defects must be rejected. A stratified subset of 18.7k TLC-enumerated configurations (num_envs vs learn_step, exact / overshot budgets, memories uniform / n-step / PER, tournament + mutation kinds, checkpoints, early stopping) is run through train_off_policy, train_on_policy, train_offline, train_bandits and both multi-agent loops with real agents, buffers, Sampler, TournamentSelection and Mutations on environments that count reset/step; each run's generation / selection / return events are validated by TLC, an exception is a 'compose' violation.",
+        note="Trusted: TLC, driver-side class-level wrappers that only log (get_action, learn, test, clone, save_checkpoint), step counting at the vector level, lineage from clone calls, elite identity by fingerprint. For train_offline the step unit is one learn call.",
+        design="4/C20"),
 }
 NOT_YET = "check not built yet in this round (planned, see DESIGN.md section 4)"
 
